@@ -1959,13 +1959,48 @@ static int64_t eval_raw(Node *node, char ***label) {
   if (is_flonum(node->ty))
     return eval_double(node);
 
+  // Evaluate the operands of a binary operator left to right, so that
+  // which of two diagnostics is reported does not depend on the
+  // compiler chibicc itself was built with.
+  int64_t lhs = 0, rhs = 0;
+  long double flhs = 0, frhs = 0;
+
   switch (node->kind) {
   case ND_ADD:
-    return eval2(node->lhs, label) + eval(node->rhs);
   case ND_SUB:
-    return eval2(node->lhs, label) - eval(node->rhs);
+    lhs = eval2(node->lhs, label);
+    rhs = eval(node->rhs);
+    break;
   case ND_MUL:
-    return eval(node->lhs) * eval(node->rhs);
+  case ND_BITAND:
+  case ND_BITOR:
+  case ND_BITXOR:
+  case ND_SHL:
+  case ND_SHR:
+    lhs = eval(node->lhs);
+    rhs = eval(node->rhs);
+    break;
+  case ND_EQ:
+  case ND_NE:
+  case ND_LT:
+  case ND_LE:
+    if (is_flonum(node->lhs->ty)) {
+      flhs = eval_double(node->lhs);
+      frhs = eval_double(node->rhs);
+    } else {
+      lhs = eval(node->lhs);
+      rhs = eval(node->rhs);
+    }
+    break;
+  }
+
+  switch (node->kind) {
+  case ND_ADD:
+    return lhs + rhs;
+  case ND_SUB:
+    return lhs - rhs;
+  case ND_MUL:
+    return lhs * rhs;
   case ND_DIV:
     return eval_div(node, false);
   case ND_NEG:
@@ -1973,37 +2008,37 @@ static int64_t eval_raw(Node *node, char ***label) {
   case ND_MOD:
     return eval_div(node, true);
   case ND_BITAND:
-    return eval(node->lhs) & eval(node->rhs);
+    return lhs & rhs;
   case ND_BITOR:
-    return eval(node->lhs) | eval(node->rhs);
+    return lhs | rhs;
   case ND_BITXOR:
-    return eval(node->lhs) ^ eval(node->rhs);
+    return lhs ^ rhs;
   case ND_SHL:
-    return eval(node->lhs) << eval(node->rhs);
+    return lhs << rhs;
   case ND_SHR:
     if (node->ty->is_unsigned && node->ty->size == 8)
-      return (uint64_t)eval(node->lhs) >> eval(node->rhs);
-    return eval(node->lhs) >> eval(node->rhs);
+      return (uint64_t)lhs >> rhs;
+    return lhs >> rhs;
   case ND_EQ:
     if (is_flonum(node->lhs->ty))
-      return eval_double(node->lhs) == eval_double(node->rhs);
-    return eval(node->lhs) == eval(node->rhs);
+      return flhs == frhs;
+    return lhs == rhs;
   case ND_NE:
     if (is_flonum(node->lhs->ty))
-      return eval_double(node->lhs) != eval_double(node->rhs);
-    return eval(node->lhs) != eval(node->rhs);
+      return flhs != frhs;
+    return lhs != rhs;
   case ND_LT:
     if (is_flonum(node->lhs->ty))
-      return eval_double(node->lhs) < eval_double(node->rhs);
+      return flhs < frhs;
     if (node->lhs->ty->is_unsigned)
-      return (uint64_t)eval(node->lhs) < eval(node->rhs);
-    return eval(node->lhs) < eval(node->rhs);
+      return (uint64_t)lhs < rhs;
+    return lhs < rhs;
   case ND_LE:
     if (is_flonum(node->lhs->ty))
-      return eval_double(node->lhs) <= eval_double(node->rhs);
+      return flhs <= frhs;
     if (node->lhs->ty->is_unsigned)
-      return (uint64_t)eval(node->lhs) <= eval(node->rhs);
-    return eval(node->lhs) <= eval(node->rhs);
+      return (uint64_t)lhs <= rhs;
+    return lhs <= rhs;
   case ND_COND:
     return eval_truth(node->cond) ? eval2(node->then, label) : eval2(node->els, label);
   case ND_COMMA:
